@@ -313,4 +313,4 @@ def run(ctx):
     if ctx.cfg == "default":
         from ..fixtures import detectors_alive
         ctx.rule("C05-z", "positive examples: ambient-callee and hash-order detectors fire on fixtures/")
-        detectors_alive(ctx, "C05-z", {"denied", "hash"})
+        detectors_alive(ctx, "C05-z", {"denied", "hash", "err-site"})
